@@ -294,3 +294,27 @@ add({"name": "mfm_read_byte", "file": "dfs/track_mfm.cc",
                (r"return std::nullopt;", "{ struct opt_byte none_; none_.has = 0; none_.val = 0; return none_; }", 2),
                (r"return data;", "{ struct opt_byte some_; some_.has = 1; some_.val = (byte)data; return some_; }", 1)],
      "dropped": ["diagnostic text"]})
+
+# ---- img_mmb.cc (C04): the slot loop of the MmbFile constructor ------------------------------------------
+add({"name": "MmbFile_ctor", "file": "dfs/img_mmb.cc",
+     "anchor": r"explicit MmbFile\(const std::string& name, bool compressed,\s*std::unique_ptr<DFS::FileAccess>&& file\)\s*: ViewFile\(name, std::move\(file\)\)",
+     "sig": "static void MmbFile_ctor(struct DataAccess *blocks)",
+     "rules": [(r"const DFS::Geometry disc_image_geom = DFS::Geometry\(80, 1, 10, DFS::Encoding::FM\);", "/* disc_image_geom = Geometry(80, 1, 10, FM) */", 1),
+               (r"const auto disc_image_sectors = disc_image_geom\.total_sectors\(\);", "const sector_count_type disc_image_sectors = 80u * 1u * 10u;  /* Geometry(80,1,10).total_sectors() */", 1),
+               (r"DFS::SECTOR_BYTES", "SECTOR_BYTES", 1),
+               (r"auto got = block_access\(\)\.read_block\(sec\);", "opt_SectorBuffer got = DataAccess_read_block(blocks, sec);", 1),
+               (r"if \(!got\)", "if (!got.has)", 1),
+               (r'throw DFS::BadFileSystem\("[^"]*"\);', "{ VERIF_THROW(BadFileSystem, 0); return; }", 1),
+               (r"got->data\(\)", "got.val.d", 1),
+               (r"const auto slot_status\b", "const unsigned char slot_status", 1),
+               (r"std::string slot_status_desc;", "/* description strings dropped */", 1),
+               (r'slot_status_desc = "[^"]*";', "", 5),
+               (r"std::cerr << \"MMB entry \".*?<< \"\\n\";", "g_diag++;  /* warning text dropped */", 1),
+               (r"std::ostringstream ss;.*?const std::string disc_name = ss\.str\(\);", "/* disc_name text dropped */", 1),
+               (r"\bauto initial_skip_sectors\b", "unsigned long initial_skip_sectors", 1),
+               (r"add_view\(FileView\(block_access\(\), name, disc_name,\s*disc_image_geom,\s*initial_skip_sectors,\s*disc_image_sectors,\s*DFS::sector_count\(0\),\s*disc_image_sectors\)\);",
+                "mmb_add_view(1, initial_skip_sectors, disc_image_sectors, sector_count(0), disc_image_sectors);", 1),
+               (r"add_view\(FileView::unformatted_device\(name, disc_name, disc_image_geom\)\);", "mmb_add_view(0, 0, 0, 1, 1);  /* unformatted_device: take = 0 */", 1),
+               (r"(for \(unsigned sec = 0; sec < mmb_sectors; \+\+sec\))", r"\1 MMB_OUTER_LOOP_CONTRACT", 1),
+               (r"(for \(unsigned i = 0; i < entries_per_sector; \+\+i\))", r"\1 MMB_INNER_LOOP_CONTRACT", 1)],
+     "dropped": ["slot description strings", "warning text for unknown status bytes"]})
